@@ -13,6 +13,7 @@ class Analysis:
         self.evals = {}
         self._paths = {}
         self.incomplete = []
+        self.renamed = model.canonicalise_names(self.prog)
         for name in frontend.CONTAINERS:
             cm = self.prog.classes[name]
             self.roles[name] = model.Roles(cm)
